@@ -25,7 +25,7 @@ EXTRA_BUILDS = {"thorough": ["rel", "asan"]}
 GENERIC_REL = False  # own release stage below
 MIN_HITS = {
     'quick': {"program": 151475, "allbytes": 1280, "random_tokens": 1920, "constructed": 858, "tx_bound": 448, "lib_err": 23954, "lib_ok": 126741, "post_error_state_checked": 23954, "step_vs_run": 150695},
-    'thorough': {"program": 1078522, "allbytes": 1536, "random_tokens": 614400, "constructed": 153624, "tx_bound": 76800, "lib_err": 694087, "lib_ok": 314920, "step_vs_run": 1009008},
+    'thorough': {"program": 1289576, "allbytes": 1536, "random_tokens": 614400, "constructed": 153739, "tx_bound": 76800, "lib_err": 794134, "lib_ok": 425927, "step_vs_run": 1220062},
 }
 HOSTILE = [b"", b"\x00", b"\x80", b"\x01", b"\x81", b"\x02", b"\x7f", b"\xff", b"\xff\xff\xff\x7f", b"\xff\xff\xff\xff", b"\x00\x00\x00\x80\x00", b"\xff" * 9, b"\x01\x00\x00\x00\x00\x00", bytes(33), b"\x02" + bytes(32), bytes(71), b"\x30\x06\x02\x01\x01\x02\x01\x01\x41"]
 
@@ -129,6 +129,15 @@ def cases(ctx):
         yield {"k": "bits", "bits": [{"if": 99, "pass": [], "fail": None}], "tag": "constructed"}
         yield {"k": "bits", "bits": [{"op": 81}] + [{"if": 99, "pass": [{"op": 81}], "fail": []}] * 50, "tag": "constructed"}
         yield {"k": "bits", "bits": [{"cb": "00"}], "tag": "constructed"}
+        # a hand-built conditional element whose opening code is not a conditional opcode at all
+        for code in (97, 118, 0, 81, 103, 104, 172, 255):
+            for pre in ([], [{"op": 81}], [{"op": 0}]):
+                yield {"k": "bits", "bits": pre + [{"if": code, "pass": [{"op": 82}], "fail": [{"op": 83}]}, {"op": 84}], "tag": "constructed"}
+        # the constructor that takes (transaction, input index, element list) with an index that does not exist
+        dtx = wire.tx_encode({"version": 1, "ins": [{"txid_wire": b"\x44" * 32, "vout": 0, "script": b"", "seq": 0}], "outs": [], "locktime": 0}).hex()
+        for txin_ in (0, 1, 5, 2**32):
+            for bits_ in ([{"op": 81}, {"op": 82}, {"op": 147}], [{"op": 81}, {"if": 99, "pass": [{"op": 85}], "fail": None}], [{"op": 81}, {"op": 105}, {"op": 0}, {"op": 105}], [{"push": "3006020101020101" + "41"}, {"push": "02" + "11" * 32}, {"op": 172}]):
+                yield {"k": "ctor", "tx": dtx, "txin": txin_, "bits": bits_, "tag": "ctor_with_index", "nbits": 6}
         # hand-built PUSHDATA elements whose payload does not fit the length field of their opcode (only from_script_bits can make these),
         # followed by something that fails, and in the middle of a program
         for code, ln in ((76, 256), (76, 300), (77, 65536), (76, 0), (78, 1), (77, 255)):
@@ -204,6 +213,9 @@ def request_of(case):
         if case.get("compact"):
             req["compact"] = True
             req["guard"] = 16 << 30
+    elif k == "ctor":
+        nb = count_bits(case["bits"])
+        req = {"op": "interp", "ctor_bits": {"tx": case["tx"], "txin": case["txin"], "bits": case["bits"]}, "max_steps": nb + 1, "mode": "both"}
     elif k == "bits":
         nb = count_bits(case["bits"])
         req = {"op": "interp", "bits": case["bits"], "max_steps": nb + 1, "mode": "both"}
@@ -378,7 +390,7 @@ def extra_stages(tier, seed, res):
     per = {}
     try:
         for case in cases(ctx):
-            if case["tag"] in ("tx_bound", "tx_bound_conditional", "huge_stack", "huge_predicate", "long") or case.get("compact"):
+            if case["tag"] in ("tx_bound", "tx_bound_conditional", "huge_stack", "huge_predicate", "long", "ctor_with_index") or case.get("compact"):
                 continue  # EC operations / megabyte-sized elements cost seconds to minutes each under Miri
             if len(str(case)) > 1500:
                 continue
